@@ -59,8 +59,8 @@ m = {
  "engines": [
    {"name": "vcheck", "path": "/verif/harness", "serves_properties": sorted(CLAIMED.keys()),
     "kind_free_text": "Rust binary: proptest 1.11 used as a library (seeded TestRunner per clause, shrinking, replay files), complete enumeration of finite configuration spaces, exact-rational scalar Q implementing num::Float so the crate's own generic code runs in exact arithmetic, independent batch reference models"},
-   {"name": "libFuzzer (cargo-fuzz)", "path": "/verif/harness/fuzz", "serves_properties": ["C01", "C08", "C15", "C17"],
-    "kind_free_text": "coverage-guided in-process fuzz targets fz_chain and fz_nopanic: bytes are decoded (arbitrary::Unstructured) into the same Case type the proptest strategies produce and the same oracle functions run inside the target; fixed-work campaigns in the thorough tier (check.sh), artifacts re-run through `vcheck fuzz-replay`"},
+   {"name": "libFuzzer (cargo-fuzz)", "path": "/verif/harness/fuzz", "serves_properties": ["C01", "C02", "C03", "C04", "C05", "C06", "C07", "C08", "C10", "C11", "C12", "C13", "C14", "C15", "C17"],
+    "kind_free_text": "coverage-guided in-process fuzz targets fz_chain (C01, C17), fz_nopanic (C08, C15) and fz_single (C02-C07, C10-C14: single views against the definitional / metamorphic oracle of the clause the input names): bytes are decoded (arbitrary::Unstructured) into the same Case type the proptest strategies produce and the same oracle functions run inside the target; fixed-work campaigns in the thorough tier (check.sh), artifacts re-run through `vcheck fuzz-replay`"},
  ],
  "checks": checks,
  "notes": "All checks rebuild the harness against /repo's working tree (path dependency) before running. Exit 0 held / 1 VIOLATION / 2 harness error or inconclusive. KNOWN_FINDINGS.txt lists repaired (fixed:) and recorded (finding:) defects.",
